@@ -802,7 +802,7 @@ func sequentialPart(c *vf.Ctx) {
 	c.Extra("exhaustive_bound", fmt.Sprintf("TypedValue: all histories of length <= %d over {Get, Has, Set, Delete, Compute(inc), Compute(NotChanged), Compute(fails)} x initial raw state {absent, present, undecodable}, each with every single fallible site failing", exhLen))
 
 	// (2) seeded histories (length 1..8) on TypedValue and TypedStore
-	n := c.Pick(20000, 300000)
+	n := c.Pick(20000, 120000)
 	pairs := c.Pick(1, 3)
 	vf.Parallel((n+chunk-1)/chunk, workers, func(w int) {
 		rng := c.Rand(fmt.Sprintf("hist/%d", w))
